@@ -357,6 +357,11 @@ class Gen3:
                 if ty1 != ty2:
                     raise Unsupported("comparison of different types: %s %s" % (ty1, ty2))
                 return p1, "(%s %s %s)" % (t1, op, t2), "bool"
+            if ty1 == "byte" and ty2 == "byte":
+                # characters compared as unsigned values (the members concerned hold digits or NUL)
+                n1 = t1 if e[2][0] == "char" else t1 + ".toNat"
+                n2 = t2 if e[3][0] == "char" else t2 + ".toNat"
+                return p1, "(%s %s %s)" % (n1, op, n2), "prop"
             if ty1 != "nat" or ty2 != "nat":
                 raise Unsupported("ordering comparison on non-numbers")
             return p1, "(%s %s %s)" % (t1, op, t2), "prop"
@@ -739,5 +744,167 @@ def translate_receiver(cls):
         "\ndef %s.receive (cfg : Cfg) (s : %s) (it : Bytes) : %s × Bytes × Rx :=\n  %s\n\nend Via\n" % (ns, S, S, term)
 
 
-JOBS = [("RQ", lambda: translate_message("rx_request")), ("RP", lambda: translate_message("rx_response")),
+# ------------------------------------------------------------------------------------------------
+# the header look-ups of message_headers (const member functions over the field map)
+
+def local_string_constant(name):
+    """bytes of `constexpr char NAME[] {"..."}` in headers.hpp"""
+    m = re.search(r"constexpr\s+char\s+%s\s*\[\s*\]\s*\{\s*\"([^\"\\]*)\"\s*\}" % re.escape(name), text_of("http/headers.hpp"))
+    if not m:
+        return None
+    return "([%s] : Bytes)" % ", ".join(str(b) for b in m.group(1).encode("latin-1"))
+
+
+class GenLookup:
+    """a const member function of message_headers that looks a field up and judges its value"""
+
+    def __init__(self):
+        self.locals = {}      # name -> type
+
+    def ex(self, e):
+        k = e[0]
+        if k == "num":
+            return str(e[1]), "nat"
+        if k == "bool":
+            return ("true" if e[1] else "false"), "bool"
+        if k == "id":
+            v = e[1]
+            if v in self.locals:
+                return v, self.locals[v]
+            if v == "std::string::npos":
+                return "npos", "npos"
+            sc = string_constant(v) if "::" in v else local_string_constant(v)
+            if sc:
+                return sc, "bytes"
+            raise Unsupported("identifier %s in a header look-up" % v)
+        if k == "not":
+            t, ty = self.ex(e[1])
+            if ty != "bool":
+                raise Unsupported("! on a %s" % ty)
+            return "!" + t, "bool"
+        if k == "call":
+            f = e[1]
+            if f == ("id", "find") and len(e[2]) == 1:
+                t, ty = self.ex(e[2][0])
+                if ty != "bytes":
+                    raise Unsupported("find of a %s" % ty)
+                # std::unordered_map look-up, empty view when absent  ->  association-list look-up (trusted mapping)
+                return "(Fields.find s.fields %s)" % t, "bytes"
+            if f == ("id", "from_dec_string") and len(e[2]) == 1:
+                t, ty = self.ex(e[2][0])
+                if ty != "bytes":
+                    raise Unsupported("from_dec_string of a %s" % ty)
+                return "(fromDecString %s)" % t, "int"
+            if f[0] == "member":
+                t, ty = self.ex(f[1])
+                if ty == "bytes" and f[2] == "empty" and not e[2]:
+                    return "%s.isEmpty" % t, "bool"
+                if ty == "bytes" and f[2] == "find" and len(e[2]) == 1:
+                    a, aty = self.ex(e[2][0])
+                    if aty != "bytes":
+                        raise Unsupported("string find of a %s" % aty)
+                    return (a, t), "findpos"      # position of a in t, compared with npos below
+            raise Unsupported("call %r in a header look-up" % (e,))
+        if k == "cmp" and e[1] in ("==", "!="):
+            a, aty = self.ex(e[2])
+            b, bty = self.ex(e[3])
+            if aty == "findpos" and bty == "npos":
+                txt = "(containsSub %s %s)" % a
+                return ("!" + txt if e[1] == "==" else txt), "bool"
+            raise Unsupported("comparison in a header look-up")
+        if k == "cond":
+            c, cty = self.ex(e[1])
+            a, aty = self.ex(e[2])
+            b, bty = self.ex(e[3])
+            if cty != "bool":
+                raise Unsupported("condition of ?:")
+            if aty == "nat" and bty == "int" and e[2][0] == "num":
+                a, aty = "(%s : Int)" % a, "int"
+            if aty != bty:
+                raise Unsupported("branches of ?: differ in type")
+            return "(if %s then %s else %s)" % (c, a, b), aty
+        raise Unsupported("expression %r in a header look-up" % (e,))
+
+    def term(self, stmts, rty):
+        if not stmts:
+            raise Unsupported("a header look-up can fall off its end")
+        st, rest = stmts[0], stmts[1:]
+        k = st[0]
+        if k == "ldecl" and st[1] in ("auto", "std::string"):
+            t, ty = self.ex(st[3])
+            if ty != "bytes":
+                raise Unsupported("local initialised with a %s" % ty)
+            self.locals[st[2]] = "bytes"
+            return "let %s : Bytes := %s; %s" % (st[2], t, self.term(rest, rty))
+        if k == "if" and st[3] is None:
+            body = st[2][1] if st[2][0] == "block" else [st[2]]
+            if len(body) == 1 and body[0][0] == "return":
+                c, cty = self.ex(st[1])
+                v, vty = self.ex(body[0][1])
+                if cty != "bool" or vty != rty:
+                    raise Unsupported("early return in a header look-up")
+                return "(if %s then %s else %s)" % (c, v, self.term(rest, rty))
+        if k == "expr" and st[1][0] == "call" and st[1][1] == ("id", "std::transform"):
+            a = st[1][2]
+            # std::transform(x.begin(), x.end(), x.begin(), tolower): lower-case x in place
+            if len(a) == 4 and a[3] == ("id", "tolower") and a[0][0] == "call" and a[0][1][0] == "member" and \
+                    a[0][1][2] == "begin" and a[0][1][1][0] == "id" and a[0][1][1][1] in self.locals and \
+                    a[1] == ("call", ("member", a[0][1][1], "end"), []) and a[2] == a[0]:
+                x = a[0][1][1][1]
+                return "let %s : Bytes := lowerBytes %s; %s" % (x, x, self.term(rest, rty))
+            raise Unsupported("std::transform form")
+        if k == "return":
+            v, vty = self.ex(st[1])
+            if vty != rty:
+                raise Unsupported("return of a %s where a %s is expected" % (vty, rty))
+            return v
+        raise Unsupported("statement %r in a header look-up" % (k,))
+
+
+LOOKUPS = [("content_length", "contentLength", "int", "Int", r"\bstd::ptrdiff_t\s+content_length\s*\(\s*\)\s*const\s*(?:noexcept)?"),
+           ("is_chunked", "isChunked", "bool", "Bool", r"\bbool\s+is_chunked\s*\(\s*\)\s*const\s*(?:noexcept)?"),
+           ("close_connection", "closeConnection", "bool", "Bool", r"\bbool\s+close_connection\s*\(\s*\)\s*const\s*(?:noexcept)?"),
+           ("expect_continue", "expectContinue", "bool", "Bool", r"\bbool\s+expect_continue\s*\(\s*\)\s*const\s*(?:noexcept)?")]
+
+
+def translate_lookups():
+    text = text_of("http/headers.hpp")
+    out = ["import ViaModel.Headers\n" + HEADER % ("message_headers::content_length / is_chunked / close_connection / expect_continue",
+                                                    "http/headers.hpp", "MHA")]
+    for cname, lname, rty, lty, sig in LOOKUPS:
+        body = function_body(text, "message_headers", sig)
+        body = body.replace("::tolower", "tolower")
+        p = P(lex(body))
+        st = p.stmt()
+        if p.peek()[0] != "eof" or st[0] != "block":
+            raise Unsupported("trailing tokens after message_headers::" + cname)
+        term = GenLookup().term(st[1], rty)
+        out.append("/-- `message_headers::%s` -/\ndef GenMHA.%s (s : MH) : %s :=\n  %s\n" % (cname, lname, lty, term))
+    out.append("end Via\n")
+    return "\n".join(out)
+
+
+PREDICATES = [("rx_request", "RQ", "GenRQ", [("keep_alive", "keepAlive"), ("missing_host_header", "missingHost"),
+                                            ("expect_continue", "expectContinue"), ("is_head", "isHead"), ("is_trace", "isTrace")]),
+              ("rx_response", "RP", "GenRP", [("keep_alive", "keepAlive")])]
+
+
+def translate_predicates():
+    """the derived predicates of rx_request / rx_response that the connection layer consults"""
+    specs = mk_specs()
+    out = ["import ViaModel.ReqRx\nimport ViaModel.RespRx\n" + HEADER % (
+        "the one-line predicates of rx_request / rx_response (keep_alive, missing_host_header, expect_continue, is_head, is_trace)",
+        "http/request.hpp and http/response.hpp", "RQP")]
+    for cls, S, ns, preds in PREDICATES:
+        for cname, lname in preds:
+            g = Gen3(specs, cls, "bool")
+            p, t, ty = g.obj_method(cls, "s", cname, [])
+            if p:
+                raise Unsupported("side effect in %s::%s" % (cls, cname))
+            out.append("/-- `%s::%s` -/\ndef %s.%s (s : %s) : Bool :=\n  %s\n" % (cls, cname, ns, lname, S, g.as_bool(t, ty)))
+    out.append("end Via\n")
+    return "\n".join(out)
+
+
+JOBS = [("MHA", translate_lookups), ("RQP", translate_predicates), ("RQ", lambda: translate_message("rx_request")), ("RP", lambda: translate_message("rx_response")),
         ("RR", lambda: translate_receiver("request_receiver")), ("RS", lambda: translate_receiver("response_receiver"))]
